@@ -175,4 +175,28 @@ theorem code_parameters :
     codeFacts.skewFuture = 120 * 1000000000 ∧ codeFacts.skewPast = 10 * 1000000000 ∧
     codeFacts.supportedAlgs = Oidc.Facts.nine ∧ codeFacts.nbfTypeChecked = true := by decide
 
+open Oidc.Generated Oidc.CodeRefine in
+/-- main.go `VerifyJWTSignatureAndClaims` as translated (key set, `kid`/`alg` typing, key selection by `kid`, JWK conversion,
+    signature check, then `JWT.Verify`) returns nil iff the flat statement of the property holds — given only what the two
+    cryptographic calls it makes mean: `jwkToPEM` succeeds exactly for supported key types, `verifySignature` returns nil exactly
+    when it knows a hash for `alg`, the key's family serves `alg`, and the signature is valid over the token's bytes -/
+theorem code_VerifyJWTSignatureAndClaims_iff (now : Int) (t : Go.Inst) (j : Go.JWT) (tok : Go.Str)
+    (fam : Go.JWK → Family) (sig : Bool) (jwks : Go.JWKSet)
+    (hj : t.getJWKS = (jwks, none))
+    (hpem : ∀ k, (t.jwkToPEM (some k)).2.isNone = decide (fam k ≠ .unsupported))
+    (hsig : ∀ k alg, (t.verifySignature tok (t.jwkToPEM (some k)).1 alg).isNone =
+        (Oidc.Facts.nine.contains (String.ofList alg) && decide (familyOfAlg (String.ofList alg) = fam k) && sig)) :
+    Code.TraefikOidc_VerifyJWTSignatureAndClaims now t j tok = none ↔
+      Spec codeFacts (String.ofList t.issuerURL) (String.ofList t.clientID) (jwks.Keys.map (absKey fam)) now
+        { absTok j with sigValid := sig } := by
+  rw [← verify_iff, ← VerifyJWTSignatureAndClaims_refines now t j tok fam sig jwks hj hpem hsig]
+  cases Code.TraefikOidc_VerifyJWTSignatureAndClaims now t j tok <;> simp
+
+open Oidc.Generated Oidc.CodeRefine in
+/-- when the key set cannot be obtained nothing is accepted -/
+theorem code_no_keys_no_accept (now : Int) (t : Go.Inst) (j : Go.JWT) (tok : Go.Str) (jwks : Go.JWKSet) (m : Go.Str)
+    (hj : t.getJWKS = (jwks, some m)) : (Code.TraefikOidc_VerifyJWTSignatureAndClaims now t j tok).isSome = true := by
+  unfold Code.TraefikOidc_VerifyJWTSignatureAndClaims
+  rw [hj]; simp
+
 end Oidc.Props.C02
